@@ -73,6 +73,7 @@ class Gen:
         self.cte_all = []  # every CTE of the statement
         self.prelude = []  # statements to run before the query (views)
         self.views = []    # (name, Q) created by the prelude
+        self.views_used = set()
         self.view_n = 0
 
     # ------------------------------------------------------------ helpers
@@ -333,8 +334,10 @@ class Gen:
             names = ["c%d" % i for i in range(ncols)]
             return "(VALUES %s) AS %s(%s)" % (", ".join(rows_sql), al, ", ".join(names)), \
                    "(fq (values (%s)))" % " ".join(rows_sx), list(zip(names, tys)), al
-        if self.views and r.chance(30):
-            name, sub = r.choice(self.views)
+        free_views = [v for v in self.views if v[0] not in self.views_used]
+        if free_views and r.chance(30):
+            name, sub = r.choice(free_views)
+            self.views_used.add(name)
             classes.add("view")
             classes |= sub.classes
             self._last_est = max(1, sub.est)
@@ -472,11 +475,12 @@ class Gen:
 
     # ------------------------------------------------------------ SELECT blocks
     def select(self, outer, depth, want=None, classes=None, force_global_agg=False, plain=False, corr=True, top=False):
-        """every SELECT block may reference each CTE of the statement once (two references inside ONE FROM clause
-        share table refs in the engine: listed finding); different blocks (union branches, subqueries, derived
-        tables) are independent, so a CTE can be referenced several times per statement"""
+        """option cte_multi: every SELECT block may reference each CTE of the statement once, different blocks
+        independently.  Off in the general stream: several references to one CTE or view share table refs inside the
+        engine (DESIGN 5-23: panics, wrong rows on complex bodies); the simple shapes that work are exercised by
+        the directed family of C09 (one CTE referenced from two blocks)."""
         parent = self.ctes
-        self.ctes = list(self.cte_all) if self.o.get("cte_multi", True) else parent
+        self.ctes = list(self.cte_all) if self.o.get("cte_multi", False) else parent
         try:
             return self._select(outer, depth, want, classes, force_global_agg, plain, corr, top)
         finally:
@@ -709,6 +713,7 @@ class Gen:
         with_sql = ""
         self.ctes = []
         self.cte_all = []
+        self.views_used = set()   # each view at most once per statement (same reason as for CTEs)
         if self.o["views"] and r.chance(30) and len(self.views) < 4:
             self.view_n += 1
             vname = "v%d" % self.view_n
